@@ -233,6 +233,7 @@ def r3(ctx):
     P = ctx.project
     forward_data_context(ctx, "C05.R3", "data")
     forward_data_context(ctx, "C05.R3", "context")
+    shared.forward_rule(ctx, "C05.R3", "drop_rows")
     # spec overrides: with a non-empty **kw every returning path passes it on
     n = 0
     for fi in shared.entry_points(P):
